@@ -28,7 +28,7 @@ type cand struct {
 // FormatSamples are valid example strings per format.
 var FormatSamples = map[string][]string{
 	"date":      {"2024-02-29", "1999-12-31"},
-	"time":      {"12:34:56", "00:00:00"},
+	"time":      {"12:34:56", "00:00:00", "23:59:59.789"},
 	"date-time": {"2024-02-29T12:34:56Z", "1999-12-31T23:59:59.123456789+02:00"},
 	"ipv4":      {"10.0.0.1", "255.255.255.255"},
 	"ipv6":      {"::1", "2001:db8::8a2e:370:7334"},
@@ -328,6 +328,17 @@ func (m *Model) numberCands(s S, isInt bool) []cand {
 	}
 	if len(bounds) >= 2 {
 		add(new(big.Rat).Quo(new(big.Rat).Add(bounds[0], bounds[1]), big.NewRat(2, 1)), "num:between")
+	}
+	if len(bounds) == 0 && mo == nil {
+		if isInt {
+			for _, t := range []string{"9223372036854775807", "-9223372036854775808", "9007199254740993", "-1"} {
+				out = append(out, cand{v: num(t), class: "num:extreme"})
+			}
+		} else {
+			for _, t := range []string{"0.1", "1e21", "1e-7", "1.7976931348623157e308", "-2.5", "9007199254740992"} {
+				out = append(out, cand{v: num(t), class: "num:extreme"})
+			}
+		}
 	}
 	if isInt {
 		out = append(out, cand{v: num("1.5"), class: "type:integer→non-integral"})
